@@ -467,7 +467,7 @@ NOT_APPLICABLE = {
 }
 
 # no hook commits exist; the only commits made to /repo are unguarded "fix:" repairs of genuine defects (see known_findings.json)
-FIX_COMMITS = ["e2ae2a9", "cb2d1e0", "e7575e5", "7bc2f7d", "0af4d83", "e4a4c00", "58e025f", "686179e", "7296d9a", "fa4b68b", "379557f", "4b30646", "0420930", "3aba53e", "2f2a1a1", "40a185d", "926b1f7", "1bc1139", "80aa30b", "cb4346c", "34ccc50", "c46bbfb", "52e39f3", "113558c", "2f9df7c", "3049d27", "8c4d891", "b57e9f6", "06f5ab2", "b6686d7", "5bdb4bc", "21f2ccc", "f629b30", "fbc7074", "28b2626", "6155775", "1ab99d9", "cee19c4", "53a1bd0", "b6cca17", "c78cdc8", "9f6e522", "c0bdc04", "e618867", "2994d64", "3ba155b", "7462d6f", "86d0f93", "a29d87c", "92ac63d", "936263a", "3d2596a", "c5627c9", "94a3f9f", "18b62d2", "54a8656", "76c07fb", "ae83586", "674afb7", "c131531", "e64b68f", "2b24aaa", "2f32c8c", "bb82fe1", "cd2cb2d", "6eb0e25", "a54d8b4", "cc2025b", "f4347ee", "e715cf0", "3e51607", "c27b908", "bcd8490", "d5acc2d", "00643db", "8cee4df", "9125872", "841c404", "d5bced4", "95cb321", "23ef82e", "b17b313", "8466b29", "7df0dfe", "4bdb8c8", "0655e8a", "23cab12", "b0df27f", "ea8cb98", "4cb01ed", "f2df80c", "7a94e68", "8ce745e", "6359c2e", "52095d0", "4e0c15c", "d6c4235", "645767f", "14ac256", "68ca01d", "2153dbf", "0b18a7d", "aed5b92", "8745fa7", "6a8ae32", "d5c7d38", "8da70d5", "564558d", "dd15644", "b86a23f", "322d95d", "892ce53", "acc3e1f", "7598542", "461fed2", "0f78ae6", "eaa2d64", "e4cd873", "c806662", "8b95915", "385a806", "b9b7769", "441f28e", "717f784", "f44cb08", "71a90fe", "b70b51f"]
+FIX_COMMITS = ["e2ae2a9", "cb2d1e0", "e7575e5", "7bc2f7d", "0af4d83", "e4a4c00", "58e025f", "686179e", "7296d9a", "fa4b68b", "379557f", "4b30646", "0420930", "3aba53e", "2f2a1a1", "40a185d", "926b1f7", "1bc1139", "80aa30b", "cb4346c", "34ccc50", "c46bbfb", "52e39f3", "113558c", "2f9df7c", "3049d27", "8c4d891", "b57e9f6", "06f5ab2", "b6686d7", "5bdb4bc", "21f2ccc", "f629b30", "fbc7074", "28b2626", "6155775", "1ab99d9", "cee19c4", "53a1bd0", "b6cca17", "c78cdc8", "9f6e522", "c0bdc04", "e618867", "2994d64", "3ba155b", "7462d6f", "86d0f93", "a29d87c", "92ac63d", "936263a", "3d2596a", "c5627c9", "94a3f9f", "18b62d2", "54a8656", "76c07fb", "ae83586", "674afb7", "c131531", "e64b68f", "2b24aaa", "2f32c8c", "bb82fe1", "cd2cb2d", "6eb0e25", "a54d8b4", "cc2025b", "f4347ee", "e715cf0", "3e51607", "c27b908", "bcd8490", "d5acc2d", "00643db", "8cee4df", "9125872", "841c404", "d5bced4", "95cb321", "23ef82e", "b17b313", "8466b29", "7df0dfe", "4bdb8c8", "0655e8a", "23cab12", "b0df27f", "ea8cb98", "4cb01ed", "f2df80c", "7a94e68", "8ce745e", "6359c2e", "52095d0", "4e0c15c", "d6c4235", "645767f", "14ac256", "68ca01d", "2153dbf", "0b18a7d", "aed5b92", "8745fa7", "6a8ae32", "d5c7d38", "8da70d5", "564558d", "dd15644", "b86a23f", "322d95d", "892ce53", "acc3e1f", "7598542", "461fed2", "0f78ae6", "eaa2d64", "e4cd873", "c806662", "8b95915", "385a806", "b9b7769", "441f28e", "717f784", "f44cb08", "71a90fe", "b70b51f", "9d3f0de"]
 
 PENDING = "check not built yet in this round (framework under construction); planned per DESIGN.md §5/§8"
 
